@@ -49,6 +49,8 @@ structure NumOps (α : Type) where
   abs : α → α
   /-- `a == 0` -/
   isZero : α → Bool
+  /-- `a < np.inf` (always true where the scalars have no infinity) -/
+  ltInf : α → Bool
 
 /-- `np.maximum(a, b)` -/
 def NumOps.maximum (o : NumOps α) (a b : α) : α := if o.lt a b then b else a
@@ -411,7 +413,7 @@ def lsLoop (o : NumOps α) (c : Consts α) (sparse : Bool) (dir grad mOld x : Li
 
 /-- `f_new > f_old`, where `none` is `np.inf`. -/
 def lsWorse (o : NumOps α) (fOld : α) : Option α → Bool
-  | none => true
+  | none => o.ltInf fOld
   | some f => o.lt fOld f
 
 /-- `tt_linesearch_prowsubprob(direction, grad, model_old, 1, 1/2, 10, 1e-4, …)`: the new
